@@ -119,3 +119,4 @@ def check(ctx):
     if ctx.cfg == "default":
         witness.run_witness(ctx, "c05_mutex", ctx.prog.extract_info["target"])
     shared.mutex_cancel_arm_rules(ctx)
+    ctx.import_rules("C02", r"^(sync-blocker|blocker|fast-blocker|thread-park)/")
